@@ -618,6 +618,54 @@ func (tr *fnTrans) constTerm(x *ssa.Const) Term {
 	return Term{c.freshConst("const", s), s, t}
 }
 
+// useTypeParam declares the symbolic bit width of an integer type parameter.
+func (tr *fnTrans) useTypeParam(t types.Type) {
+	tp, ok := types.Unalias(t).(*types.TypeParam)
+	if !ok {
+		return
+	}
+	if _, _, isInt := intTypeParam(tp); !isInt {
+		return
+	}
+	name := "bits:" + tp.Obj().Name()
+	if tr.c.declared[q(name)] {
+		return
+	}
+	b := tr.c.declConst(name, "Int")
+	// the widths that occur in the type set
+	widths := map[int]bool{}
+	iface := tp.Constraint().Underlying().(*types.Interface)
+	var collect func(t types.Type)
+	collect = func(t types.Type) {
+		t = types.Unalias(t)
+		if u, ok := t.(*types.Union); ok {
+			for j := 0; j < u.Len(); j++ {
+				collect(u.Term(j).Type())
+			}
+			return
+		}
+		if bits, _, ok := intBits(t); ok {
+			widths[bits] = true
+			return
+		}
+		if in, ok := t.Underlying().(*types.Interface); ok {
+			for k := 0; k < in.NumEmbeddeds(); k++ {
+				collect(in.EmbeddedType(k))
+			}
+		}
+	}
+	for i := 0; i < iface.NumEmbeddeds(); i++ {
+		collect(iface.EmbeddedType(i))
+	}
+	var alts []string
+	for _, w := range []int{8, 16, 32, 64} {
+		if widths[w] {
+			alts = append(alts, app("=", b, fmt.Sprint(w)))
+		}
+	}
+	tr.asserts = append(tr.asserts, or(alts...))
+}
+
 // wf adds well-formedness assumptions for a freshly introduced value of Go type t.
 func (tr *fnTrans) wf(v Term, t types.Type) {
 	if t == nil {
@@ -625,6 +673,7 @@ func (tr *fnTrans) wf(v Term, t types.Type) {
 	}
 	switch v.Sort {
 	case "Int":
+		tr.useTypeParam(t)
 		if lo, hi, ok := intRange(t); ok {
 			tr.assume(and(app("<=", lo, v.S), app("<=", v.S, hi)))
 		}
